@@ -124,4 +124,5 @@ def check(ctx):
     R.c14_closure(ctx, prog)
     R.c14_streams(ctx, prog)
     R.c14_bounds(ctx, prog)
+    R.exited_is_quiet(ctx, prog, "C14.L2q")
     R.c14_asserts(ctx)
